@@ -5,6 +5,7 @@ mod c11;
 mod c12;
 mod c14;
 mod c18;
+mod c19;
 mod cosm;
 mod gen;
 mod hist;
@@ -35,6 +36,10 @@ fn main() {
             let mut pr = net::PRule { line: args[2].clone(), f: Box::new(f), rm: Default::default() };
             println!("matches: {}", pr.matches(&q.req));
         }
+        return;
+    }
+    if args.len() >= 5 && args[1] == "C19SEQ" {
+        c19::run_seq_file(args[2].parse().unwrap(), args[3].parse().unwrap(), &args[4]);
         return;
     }
     if args.len() < 5 {
@@ -73,6 +78,7 @@ fn main() {
         "C07" => hist::run(seed, n, &mut out, true),
         "C18" => c18::run(seed, n, &mut out, args.get(5).map(|s| s.as_str()).unwrap_or("quick")),
         "C12" => c12::run(seed, n, &mut out),
+        "C19" => c19::run(seed, n, &mut out, args.get(5).map(|s| s.as_str()).unwrap_or("quick")),
         "PARSE" => c11::run_parse(seed, n, &mut out),
         "C11" => c11::run(seed, n, &mut out, args.get(5).map(|s| s.as_str()).unwrap_or("quick")),
         "C02" => c02::run(seed, n, &mut out, args.get(5).map(|s| s.as_str()).unwrap_or("quick")),
